@@ -130,6 +130,7 @@ struct dropper final : sink
 		{
 			--budget;
 			d = vp_choose(outcomes);
+			pattern = pattern * 4 + d + 1;
 			vp_log(90, d, long(p.seq_nr), 0);
 		}
 		if (d == 1)
@@ -162,6 +163,7 @@ struct dropper final : sink
 	std::string label() const override { return std::string(); }
 	int budget, outcomes;
 	int dropped = 0, reordered = 0;
+	int pattern = 0;      // the decisions taken so far, as base-4 digits (1 pass, 2 drop, 3 hold)
 	bool holding = false;
 	aux::packet held;
 };
